@@ -170,11 +170,14 @@ func VsymC06NoTimestamp() {
 	vr.Reach("notary.x509")
 }
 
+// c06Around places an instant before / after the fixed native signing time (2033) but after the real clock, so
+// that a window valid at the signing time does not contain the moment of the replay: code that judges the
+// chain at time.Now() instead of the authentic signing time is told apart natively as well.
 func c06Around(sec, ref int64) time.Time {
 	if sec < ref {
-		return time.Unix(1000000000, 0)
+		return time.Unix(1950000000, 0)
 	}
-	return time.Unix(3000000000, 0)
+	return time.Unix(2050000000, 0)
 }
 
 // ---- timestamp countersignature branch (tspclient behind contract stubs; engine only) ----------
